@@ -350,6 +350,11 @@ func (c *clientHello) parseExtensions() error {
 			//                   Empty;
 			//           };
 			//        } ECHClientHello;
+			// RFC 8446 section 4.2: there MUST NOT be more than one
+			// extension of the same type in a given extension block.
+			if c.echExt != nil {
+				return fmt.Errorf("%w: duplicate encrypted_client_hello", ErrIllegalParameter)
+			}
 			c.echExt = &echExt{}
 
 			if !data.ReadUint8(&c.echExt.Type) { // type
